@@ -8,6 +8,7 @@ import (
 	"fmt"
 	"math"
 	"math/big"
+	"regexp"
 	"strconv"
 	"time"
 
@@ -45,7 +46,9 @@ type UnitCase struct {
 	// semver
 	A string `json:"a,omitempty"`
 	B string `json:"b,omitempty"`
-	// clause
+	// clause / accessor
+	Idx    int      `json:"idx,omitempty"`
+	Nil    bool     `json:"nil,omitempty"`
 	Clause *WClause `json:"clause,omitempty"`
 	Rx     [][3]any `json:"rx,omitempty"`
 	// preprocess
@@ -157,6 +160,47 @@ func (c *UnitCase) run() {
 		} else {
 			c.Go = map[string]any{"match": m, "err": nil}
 		}
+	case "accessor":
+		// the exported accessors, called the way any caller may: nil clause, negative and
+		// out-of-range indexes, operators that do not match the kind of value asked for
+		cl := c.Clause.build()
+		if c.Flag != nil && c.Flag.Form == "pre" {
+			f := ldmodel.FeatureFlag{Rules: []ldmodel.FlagRule{{Clauses: []ldmodel.Clause{cl}}}}
+			ldmodel.PreprocessFlag(&f)
+			cl = f.Rules[0].Clauses[0]
+		}
+		dc := dumpClause(&cl)
+		c.Clause = &dc
+		c.Rx = [][3]any{}
+		seenP := map[string]bool{}
+		for _, v := range dc.Vals {
+			if v.K == 's' && !seenP[v.S] {
+				seenP[v.S] = true
+				if _, err := regexp.Compile(v.S); err != nil {
+					c.Rx = append(c.Rx, [3]any{v.S, "", nil})
+				} else {
+					c.Rx = append(c.Rx, [3]any{v.S, "", false})
+				}
+			}
+		}
+		p := &cl
+		if c.Nil {
+			p = nil
+		}
+		if c.V == nil {
+			n := jNull()
+			c.V = &n
+		}
+		out := map[string]any{"find": ldmodel.EvaluatorAccessors.ClauseFindValue(p, c.V.toLD()), "rx": nil, "t": nil}
+		if r := ldmodel.EvaluatorAccessors.ClauseGetValueAsRegexp(p, c.Idx); r != nil {
+			out["rx"] = r.String()
+		}
+		sv, okv := ldmodel.EvaluatorAccessors.ClauseGetValueAsSemanticVersion(p, c.Idx)
+		out["sv"] = semverDump(sv, okv)
+		if t, ok := ldmodel.EvaluatorAccessors.ClauseGetValueAsTimestamp(p, c.Idx); ok {
+			out["t"] = timeNS(t)
+		}
+		c.Go = out
 	case "preflag":
 		c.Flag.Form = "plain"
 		f := c.Flag.build()
